@@ -14,7 +14,8 @@ available (`avail`).  Buffers are the list of bytes written so far; capacities: 
 rd_header[14]; the payload buffer `data` belongs to the CALLER (coap_read_session's stack array) and is
 a fresh local of every call — only `rxData` (ws->rx_data) survives between calls.
 Oracles (not modelled): SHA-1/base64 of the accept hash (`accept` = the expected header value),
-base64-decoding of the key (`keyOk`), coap_ws_close's draining of the socket after the close frame was sent.
+base64-decoding of the key (`keyOk`), the Close frame coap_ws_close writes.  coap_ws_close's draining of the socket
+is modelled at the end of this file (`closeDrain`, `drainRounds`; entered by the reader itself: `refusalPoint`, `selfClose`).
 C strings: `lfIdx` = strchr(http_hdr, LF) stops at a NUL byte, so a line handed to the per-line checks never
 contains one.
 -/
